@@ -474,6 +474,37 @@ impl Processor {
         query_id: QueryId,
         shard_transport: ShardTransportImpl,
     ) -> Result<Box<dyn ProtocolResult>, QueryCompletionError> {
+        // Check that the query can be completed, without changing its state yet: if the other
+        // shards refuse, this request is rejected and must leave the query as it was.
+        {
+            let queries = self.queries.inner.lock().unwrap();
+            match queries.get(&query_id) {
+                Some(QueryState::Completed(_) | QueryState::Running(_)) => {}
+                Some(state) => {
+                    return Err(QueryCompletionError::StateError {
+                        source: StateError::InvalidState {
+                            from: QueryStatus::from(state),
+                            to: QueryStatus::Running,
+                        },
+                    });
+                }
+                None => return Err(QueryCompletionError::NoSuchQuery(query_id)),
+            }
+        } // release mutex before await
+
+        // Inform other shards about our intent to complete the query.
+        // If any of them rejects it, report the error back. We expect all shards
+        // to be in the same state. In normal cycle, this API is called only after
+        // query status reports completion. This happens whether or not the result of the
+        // leader is already available, so that the other shards always forget the query too.
+        if shard_transport.identity() == ShardIndex::FIRST {
+            // See shard finalizer protocol to see how shards merge their results together.
+            // At the end, only leader holds the value
+            shard_transport
+                .broadcast((RouteId::CompleteQuery, query_id))
+                .await?;
+        }
+
         let handle = {
             let mut queries = self.queries.inner.lock().unwrap();
 
@@ -496,18 +527,6 @@ impl Processor {
                 None => return Err(QueryCompletionError::NoSuchQuery(query_id)),
             }
         }; // release mutex before await
-
-        // Inform other shards about our intent to complete the query.
-        // If any of them rejects it, report the error back. We expect all shards
-        // to be in the same state. In normal cycle, this API is called only after
-        // query status reports completion.
-        if shard_transport.identity() == ShardIndex::FIRST {
-            // See shard finalizer protocol to see how shards merge their results together.
-            // At the end, only leader holds the value
-            shard_transport
-                .broadcast((RouteId::CompleteQuery, query_id))
-                .await?;
-        }
 
         Ok(handle.await?)
     }
